@@ -20,20 +20,11 @@ Section TreeProofs.
     - inversion H. subst. apply andb_true_intro. split; [apply keqb_spec; reflexivity|apply IH; reflexivity].
   Qed.
 
-  (* q is a non-empty prefix of l *)
-  Fixpoint prefixb (q l : list K) : bool :=
-    match q, l with
-    | [], _ => false
-    | [x], y :: _ => keqb x y
-    | x :: q', y :: l' => keqb x y && prefixb q' l'
-    | _ :: _, [] => false
-    end.
-
-  (* ---- specification of a call tree ---- *)
-  Definition tree_cum_spec (div : bool) (ss : list (gsample K)) (path : list K) : Z :=
-    sumf K (fun s => if prefixb path (keys K s) then pick K div s else 0) ss.
-  Definition tree_flat_spec (div : bool) (ss : list (gsample K)) (path : list K) : Z :=
-    sumf K (fun s => if leqb (keys K s) path then pick K div s else 0) ss.
+  Notation prefixb := (S_Graph.prefixb K keqb).
+  Notation econd := (S_Graph.econd K keqb).
+  Notation tree_cum_spec := (S_Graph.tree_cum_spec K keqb).
+  Notation tree_flat_spec := (S_Graph.tree_flat_spec K keqb).
+  Notation tree_edge_spec := (S_Graph.tree_edge_spec K keqb).
 
   Lemma prefixb_nil_r : forall q, prefixb q [] = false.
   Proof. destruct q as [|x [|y q]]; reflexivity. Qed.
@@ -77,9 +68,6 @@ Section TreeProofs.
           destruct (keqb a b); reflexivity.
   Qed.
 
-  Definition econd (p q l : list K) : bool :=
-    (prefixb p l && prefixb q l && Nat.eqb (List.length q) (S (List.length p)))%bool.
-
   Notation tgraph := (graph (list K)).
   Notation tnget := (nget (list K) leqb).
   Notation tew := (ew (list K) leqb).
@@ -100,7 +88,7 @@ Section TreeProofs.
     intros. constructor; simpl; intros.
     - reflexivity.
     - rewrite prefixb_nil_r. reflexivity.
-    - unfold econd. rewrite prefixb_nil_r. reflexivity.
+    - unfold S_Graph.econd. rewrite prefixb_nil_r. reflexivity.
   Qed.
 
   Lemma leqb_refl : forall l, leqb l l = true.
@@ -138,7 +126,7 @@ Section TreeProofs.
   Lemma econd_snoc : forall p q l x,
     econd p q (l ++ [x]) = (econd p q l || (leqb l p && leqb (l ++ [x]) q && negb (Nat.eqb (List.length l) 0)))%bool.
   Proof.
-    intros p q l x. unfold econd. rewrite !prefixb_snoc.
+    intros p q l x. unfold S_Graph.econd. rewrite !prefixb_snoc.
     assert (Hlen : List.length (l ++ [x]) = S (List.length l)) by (rewrite app_length; simpl; lia).
     destruct (leqb q (l ++ [x])) eqn:Eq.
     - apply list_eqb_spec in Eq. subst q. rewrite leqb_refl.
@@ -208,7 +196,7 @@ Section TreeProofs.
         destruct (leqb l p && leqb n q)%bool eqn:E.
         * apply andb_prop in E. destruct E as [E1 E2]. apply list_eqb_spec in E1. apply list_eqb_spec in E2. subst p q.
           assert (econd l n l = false) as Ez.
-          { unfold econd. rewrite (prefixb_longer n l) by lia. rewrite andb_false_r. reflexivity. }
+          { unfold S_Graph.econd. rewrite (prefixb_longer n l) by lia. rewrite andb_false_r. reflexivity. }
           rewrite Ez. reflexivity.
         * rewrite orb_false_r. reflexivity.
       + cbn [fst add_cum g_edges]. rewrite (IE p q).
@@ -228,9 +216,6 @@ Section TreeProofs.
 
   Notation tadd_sample := (tadd_sample K keqb).
   Notation build_tree := (build_tree K keqb).
-
-  Definition tree_edge_spec (div : bool) (ss : list (gsample K)) (p q : list K) : Z :=
-    sumf K (fun s => if econd p q (keys K s) then pick K div s else 0) ss.
 
   Lemma tadd_sample_skip : forall g s, counted K s = false -> tadd_sample g s = g.
   Proof.
@@ -298,7 +283,7 @@ Section TreeProofs.
   Theorem tree_cum_eq_spec_lemma : forall (div : bool) ss path, path <> [] ->
     (if div then nv_cumdiv else nv_cum) (tnget path (g_nodes (build_tree ss))) = wrap_i64 (tree_cum_spec div ss path).
   Proof.
-    intros div ss path Hp. unfold M_Graph.build_tree, tree_cum_spec.
+    intros div ss path Hp. unfold M_Graph.build_tree, S_Graph.tree_cum_spec.
     rewrite (tacc_fold (fun g => (if div then nv_cumdiv else nv_cum) (tnget path (g_nodes g)))
                        (fun s => prefixb path (keys K s)) div) with (c := 0).
     - reflexivity.
@@ -311,7 +296,7 @@ Section TreeProofs.
   Theorem tree_flat_eq_spec_lemma : forall (div : bool) ss path, path <> [] ->
     (if div then nv_flatdiv else nv_flat) (tnget path (g_nodes (build_tree ss))) = wrap_i64 (tree_flat_spec div ss path).
   Proof.
-    intros div ss path Hp. unfold M_Graph.build_tree, tree_flat_spec.
+    intros div ss path Hp. unfold M_Graph.build_tree, S_Graph.tree_flat_spec.
     rewrite (tacc_fold (fun g => (if div then nv_flatdiv else nv_flat) (tnget path (g_nodes g)))
                        (fun s => leqb (keys K s) path) div) with (c := 0).
     - reflexivity.
@@ -324,7 +309,7 @@ Section TreeProofs.
   Theorem tree_edge_eq_spec_lemma : forall (div : bool) ss p q,
     (if div then @snd Z Z else @fst Z Z) (tew p q (g_edges (build_tree ss))) = wrap_i64 (tree_edge_spec div ss p q).
   Proof.
-    intros div ss p q. unfold M_Graph.build_tree, tree_edge_spec.
+    intros div ss p q. unfold M_Graph.build_tree, S_Graph.tree_edge_spec.
     rewrite (tacc_fold (fun g => (if div then @snd Z Z else @fst Z Z) (tew p q (g_edges g)))
                        (fun s => econd p q (keys K s)) div) with (c := 0).
     - reflexivity.
